@@ -209,7 +209,7 @@ var ruleDynCalls = &core.Rule{ID: "R01.3", Min: 4,
 						continue
 					}
 					s.Bad(key, c.Pos(ci.Pos()), "call through a function value of unknown origin (may be nil)")
-				case *ssa.Extract, *ssa.Call:
+				case *ssa.Extract, *ssa.Call, *ssa.Lookup:
 					lk := cm.lookupOf(cc.Value)
 					guarded := false
 					if lk != nil {
